@@ -318,6 +318,8 @@ class Interp:
                 return SV(self.run.fresh('errno'))
         if isinstance(v, PathV):
             pass
+        if isinstance(v, OpaqueV) and v.tag == '__dict__' and name in ('copy', 'update'):
+            return BuiltinV(f'objdict.{name}', bound=v)
         if isinstance(v, OpaqueV) and v.tag in ('md5', 'bytes', 'generator', 'str'):
             return BuiltinV(f'{v.tag}.{name}', bound=v)
         if isinstance(v, OpaqueV) and v.tag == 'typeof':
